@@ -189,7 +189,7 @@ func scteDescOp(d scte35.SegmentationDescriptor, o Val) {
 			u := scte35.CreateUPID()
 			u.SetUPIDType(scte35.SegUPIDType(e.L[0].U()))
 			u.SetUPID(append([]byte{}, e.L[1].B...))
-			us = append(us, u)
+			us = append(us, maybeForeignUPID(u))
 		}
 		d.SetMID(us)
 	case 18:
@@ -395,7 +395,11 @@ func init() {
 		return VOk(VL(VB(out), view, VB(before), VB(after), rt))
 	})
 	// scte.hist <start> <ops>: ONE signal, every getter after every step (twice), everything handed out is kept
+	var scteHistOnce func(a []Val) Val
 	register("scte.hist", func(a []Val) Val {
+		return foreignTwin("scte.hist (SetMID with caller-written UPID values)", func() Val { return scteHistOnce(a) })
+	})
+	scteHistOnce = func(a []Val) Val {
 		if scteHasNeg(a[0]) || scteHasNeg(a[1]) {
 			return VBad()
 		}
@@ -423,6 +427,6 @@ func init() {
 			out = append(out, look(fmt.Sprintf("after step %d", i)))
 		}
 		return VOk(Val{K: 2, L: out})
-	})
+	}
 	register("scte.crc", func(a []Val) Val { return VB(gots.ComputeCRC(a[0].B)) })
 }
